@@ -224,12 +224,8 @@ structure St (F : Type) where
 
 def St.toGenome (s : St F) : Genome F := { id := s.id, traits := s.traits, nodes := s.nodes, genes := s.genes, modules := [] }
 
-/-- one iteration of the scanner loop of `Read` -/
-def step (C : Codec F) (st : St F) (ln : Line) : Except Err (St F) :=
-  match ln with
-  | [] => .error .split
-  | [_] => .error .split
-  | kw :: rest =>
+/-- one iteration of the scanner loop of `Read` on a line with keyword `kw` and remaining tokens `rest` -/
+def stepKw (C : Codec F) (st : St F) (kw : String) (rest : Line) : Except Err (St F) :=
     if kw = "trait" then
       match readTrait C rest with
       | .error e => .error e
@@ -254,6 +250,12 @@ def step (C : Codec F) (st : St F) (ln : Line) : Except Err (St F) :=
         | none => .error .badInt
         | some id => .ok { st with id := id }
     else .ok st   -- "genomestart", "/*" and every other keyword: the line is skipped
+
+/-- one iteration of the scanner loop of `Read`; a line without a space cannot be split: error -/
+def step (C : Codec F) (st : St F) (ln : Line) : Except Err (St F) :=
+  match ln with
+  | kw :: t :: ts => stepKw C st kw (t :: ts)
+  | _ => .error .split
 
 def parseLines (C : Codec F) : St F → List Line → Except Err (St F)
   | st, [] => .ok st
@@ -351,17 +353,13 @@ def finishGenome (C : Codec F) (st : PSt F) (b : List Line) : Except Err (PSt F)
 
 /-- one iteration of the scanner loop of `ReadPopulation`, WITH the proposed repair (notes/proposed_fix_C15.patch):
     the buffer starts with the complete line `genomestart <id>` -/
-def popStep (C : Codec F) (st : PSt F) (ln : Line) : Except Err (PSt F) :=
-  match ln with
-  | [] => .error .split
-  | [_] => .error .split
-  | kw :: rest =>
+def popStepKw (C : Codec F) (st : PSt F) (kw : String) (rest : Line) : Except Err (PSt F) :=
     if kw = "genomestart" then
       match rest with
       | [t] =>
         match parseInt t with
         | none => .error .badInt
-        | some id => .ok { st with buf := some [ln], idCheck := id }
+        | some id => .ok { st with buf := some [kw :: rest], idCheck := id }
       | _ => .error .badInt
     else if kw = "genomeend" then
       match st.buf with
@@ -371,7 +369,12 @@ def popStep (C : Codec F) (st : PSt F) (ln : Line) : Except Err (PSt F) :=
     else
       match st.buf with
       | none => .error .nilBuffer
-      | some b => .ok { st with buf := some (b ++ [ln]) }
+      | some b => .ok { st with buf := some (b ++ [kw :: rest]) }
+
+def popStep (C : Codec F) (st : PSt F) (ln : Line) : Except Err (PSt F) :=
+  match ln with
+  | kw :: t :: ts => popStepKw C st kw (t :: ts)
+  | _ => .error .split
 
 def popLines (C : Codec F) : PSt F → List Line → Except Err (PSt F)
   | st, [] => .ok st
@@ -408,17 +411,13 @@ def appendLine (b : Option Line × List Line) (ln : Line) : Option Line × List 
   | some g => (none, b.2 ++ [glueLine g ln])
   | none => (none, b.2 ++ [ln])
 
-def popStep (C : Codec F) (st : PSt F) (ln : Line) : Except Err (PSt F) :=
-  match ln with
-  | [] => .error .split
-  | [_] => .error .split
-  | kw :: rest =>
+def popStepKw (C : Codec F) (st : PSt F) (kw : String) (rest : Line) : Except Err (PSt F) :=
     if kw = "genomestart" then
       match rest with
       | [t] =>
         match parseInt t with
         | none => .error .badInt
-        | some id => .ok { st with buf := some (some ln, []), idCheck := id }
+        | some id => .ok { st with buf := some (some (kw :: rest), []), idCheck := id }
       | _ => .error .badInt
     else if kw = "genomeend" then
       match st.buf with
@@ -435,7 +434,12 @@ def popStep (C : Codec F) (st : PSt F) (ln : Line) : Except Err (PSt F) :=
     else
       match st.buf with
       | none => .error .nilBuffer
-      | some b => .ok { st with buf := some (appendLine b ln) }
+      | some b => .ok { st with buf := some (appendLine b (kw :: rest)) }
+
+def popStep (C : Codec F) (st : PSt F) (ln : Line) : Except Err (PSt F) :=
+  match ln with
+  | kw :: t :: ts => popStepKw C st kw (t :: ts)
+  | _ => .error .split
 
 def popLines (C : Codec F) : PSt F → List Line → Except Err (PSt F)
   | st, [] => .ok st
